@@ -80,6 +80,11 @@ CLAIMED = {
   ref="DESIGN.md §6 C01",
   note="Partial: absence of panics in the Rust code itself (indexing, slicing, casts in the pixel paths) is established by the oracle on generated inputs, not proved; the theorems cover the arithmetic and protocol logic that the models carry. Non-termination is observed only as a 10 s per-call timeout.",
   tech="Coq proof (checked-arithmetic refinement, induction over effect scripts) + implementation-only totality oracle (catch_unwind, debug+release)"),
+ "C15": dict(
+  text="Coq theorems over an executable IEEE-754 model: Rust's saturating float-to-integer casts return a value in [0, max] for EVERY float (NaN, infinities, negative, huge, subnormal); clamp_0_1 maps every float, NaN included, to a non-NaN value in [0, 1]; in the encoder state machine a format with a size multiple refuses other sizes before anything is written or the cursor moves. The implementation is exercised by a totality oracle over all 73 formats x sizes 0..40 x float specials x 12 colour formats x quality x dithering x metric x parallel x failing writers (error or zero-length write at byte k), in the debug and release builds.",
+  ref="DESIGN.md §6 C15",
+  note="Partial: the theorems cover the conversion primitives and the size-refusal protocol; the absence of panics and hangs inside the BC encoders' float code is established by the oracle only (bounded loops are not modelled).",
+  tech="Coq proof (case analysis over the float representation, Z arithmetic) + implementation-only totality oracle (catch_unwind, watchdog, debug+release)"),
  "C19": dict(
   text="Coq theorems over the implementation's regenerated tables: for every header from which a format is detected (all valid DXGI codes x alpha modes incl. the premultiplied special cases, every FourCC, every mask pixel format; all other fields symbolic) the pixel layout derived from the header equals the pixel layout of the detected format, so layouts computed with or without a decoder coincide; every implemented format's pixel layout is within the bounds the layout/script theorems assume; size multiples are advertised exactly for the bi-planar formats and equal their sub-sampling; advertised bits per pixel are exact for fixed-size pixels and an upper bound per whole block otherwise. Observed behaviour is tied to the tables by differential execution: header detection sweep here, bytes consumed by decoding in C06, sizes accepted by encoding in C10. The dithering clauses are checked by an implementation-only oracle over all encodable formats.",
   ref="DESIGN.md §6 C19",
